@@ -5,6 +5,11 @@
    case:  (case n hist <binary> <L> <sync> <nb> (( <event> ( <obs of bundle 0> ... ) ) ...))
    event: (create b origin viaRx dst (blk?) (prev?)) | (up cla node fail) | (down cla) |
           (setfail cla fail) | (tick) | (gc)
+          a create event for a bundle created before = the same bundle received again: a duplicate
+          while the store knows the bundle, otherwise (it was delivered and left the store) a new
+          life of the bundle on this node begins - NotifyNewBundle initialises the metadata afresh
+          (Model.spray_step: SeCreate; Model.spray_enters).  The property's checkers judge the
+          transmissions of each life against the budget that life started with.
           | (par-gc mode <event> c0 c1)   generator C18sprayconc: the metadata garbage collection runs
             concurrently with the event (mode 1: started before it, 2: from inside SenderForBundle,
             3: from inside Send); c0 / c1 = metadata entries before the harness added leftovers of
@@ -42,7 +47,10 @@ type bstate = {
   mutable origin : bool;
   mutable dst : int;
   mutable init_copies : n;
-  mutable outs : ssend list;       (* everything the implementation transmitted for this bundle *)
+  mutable outs : ssend list;       (* everything the implementation transmitted for this bundle in its current life *)
+  mutable istored : bool;          (* the implementation's store knew the bundle after the previous event *)
+  mutable lives : int;             (* times the bundle entered the store *)
+  mutable relays_ever : int;       (* successful transmissions to non-destination peers over all lives *)
   mutable prev_rem : n option;     (* implementation's count after the previous event *)
   mutable dead : bool;             (* model already diverged: stop comparing *)
   mutable pdead : bool;            (* property already failed for this bundle: report only the first failure *)
@@ -54,7 +62,8 @@ let hist = function
     let binary = s_bool binary and ln = s_n l and sync = s_bool sync and nb = s_int nb in
     let conf = { sc_algo = (if binary then SprayBinary else SprayVanilla); sc_L = ln } in
     let bs = Array.init nb (fun _ -> { st = spray_init; created = false; origin = false; dst = 0; init_copies = N0;
-                                       outs = []; prev_rem = None; dead = false; pdead = false; bdead = false }) in
+                                       outs = []; istored = false; lives = 0; relays_ever = 0;
+                                       prev_rem = None; dead = false; pdead = false; bdead = false }) in
     let res = ref [] in
     let tags = Hashtbl.create 16 in
     let tag t = Hashtbl.replace tags t () in
@@ -87,9 +96,21 @@ let hist = function
           | "create", [b; origin; _viarx; dst; blk; prev] ->
             if s_int b = bi then begin
               let st = bs.(bi) in
-              st.created <- true; st.origin <- s_bool origin; st.dst <- s_int dst;
-              st.init_copies <- (match opt_n blk with Some k when binary -> k | _ -> if binary || s_bool origin then ln else n_of_int 1);
-              st.prev_rem <- Some st.init_copies;
+              if st.created && st.istored then
+                (* received again while the implementation's store knows it: nothing may change -
+                   the checkers go on judging this life (a re-initialised budget shows as remaining +
+                   handed over <> L, a transmission counts like any other) *)
+                tag "again-duplicate-while-stored"
+              else begin
+                (* the bundle enters the store: first creation, or it comes back after it was delivered *)
+                if st.created then tag (if s_bool origin then "again-own-bundle-comes-back" else "again-foreign-bundle-comes-back");
+                if s_bool origin && opt_n prev <> None then tag "own-bundle-with-previous-node";
+                st.created <- true; st.origin <- s_bool origin; st.dst <- s_int dst;
+                st.lives <- st.lives + 1;
+                st.outs <- [];
+                st.init_copies <- (match opt_n blk with Some k when binary -> k | _ -> if binary || s_bool origin then ln else n_of_int 1);
+                st.prev_rem <- Some st.init_copies
+              end;
               Some (SeCreate (s_bool origin, s_n dst, opt_n blk, opt_n prev))
             end else None
           | "up", [c; nd; f] -> Some (SePeerUp (s_n c, s_n nd, s_bool f))
@@ -159,6 +180,18 @@ let hist = function
                 let these = List.map (fun o -> { sn_cla = n_of_int o.o_cla; sn_node = n_of_int o.o_node; sn_ok = o.o_ok;
                                                  sn_blk = o.o_blk; sn_direct = (o.o_node = b.dst) }) o_sends in
                 b.outs <- b.outs @ these;
+                b.relays_ever <- b.relays_ever + List.length (List.filter (fun o -> o.o_ok && o.o_node <> b.dst) o_sends);
+                (* over several lives the node hands out more than L-1 copies: it has no memory of a bundle that left
+                   the store (C18_budget_across_lives). The per-life checkers below judge each life; this one judges
+                   the property as stated, over the whole history (known finding spray.budget.across-lives). *)
+                let new_relays = List.length (List.filter (fun o -> o.o_ok && o.o_node <> b.dst) o_sends) in
+                if (not binary) && b.origin && b.lives >= 2 && b.relays_ever > int_of_n ln - 1 then begin
+                  tag "across-lives-more-than-L-1-relays";
+                  if b.relays_ever - new_relays <= int_of_n ln - 1 then
+                    res := Propfail ("spray.budget.across-lives",
+                                     where ^ Printf.sprintf "%d successful transmissions to relays over %d lives of the bundle in the store, budget L = %s"
+                                       b.relays_ever b.lives (dec_of_n ln)) :: !res
+                end;
                 let nfail = List.length (List.filter (fun o -> not o.o_ok) o_sends) in
                 let direct_fail = List.exists (fun o -> (not o.o_ok) && o.o_node = b.dst) o_sends in
                 let relays = List.filter (fun o -> o.o_node <> b.dst) o_sends in
@@ -219,7 +252,8 @@ let hist = function
                                (dec_of_n r) (dec_of_n r') (dec_of_n handed)))
                    | _ -> ());
                 end;
-                b.prev_rem <- (match o_meta with Some (r, _) -> Some r | None -> None)
+                b.prev_rem <- (match o_meta with Some (r, _) -> Some r | None -> None);
+                b.istored <- o_stored
               end
             end
         done) (lst evs);
